@@ -389,4 +389,42 @@ theorem missing_points_generated :
     Ems.Gen.missingPointsChoices = missingPointPolicies ∧
       Ems.Gen.missingPointsDefault = missingPointPolicies.head? := by decide
 
+/-! ## the handlers are those of the code (T)
+
+`harness/tables.py` walks the AST of `Command.handle` of the three commands in statement order (into `with`, `try`,
+`except` and `if` bodies; `logger.*` calls dropped) and emits every library call it finds there as (kind, call); a
+call, `.ems` property, table subscript, `raise` or statement it has no vocabulary entry for becomes an
+`("unknown", "<unknown: …>")` entry, which none of the theorems below accepts.  The model's call lists are those
+lists, and the model's step lists are the call lists grouped by step — so the order of the steps, which
+`handlers_write_last` and `exit_status` rest on, is the statement order of the code. -/
+
+theorem clip_handler_generated :
+    Ems.Gen.clipHandleCalls = clipCalls.map HandlerCall.entry ∧ clipSteps = stepsOfCalls clipCalls := by
+  decide +kernel
+
+theorem extract_points_handler_generated :
+    Ems.Gen.extractPointsHandleCalls = extractPointsCalls.map HandlerCall.entry
+      ∧ extractPointsSteps = stepsOfCalls extractPointsCalls := by
+  decide +kernel
+
+theorem export_geometry_handler_generated :
+    Ems.Gen.exportGeometryHandleCalls = exportGeometryCalls.map HandlerCall.entry
+      ∧ exportGeometrySteps = stepsOfCalls exportGeometryCalls := by
+  decide +kernel
+
+/-- `handlers_write_last`, restated for the lists read off the code: in each handler, as written, every call is of a
+known kind, exactly one call writes, and every `read`, `compute` and `fail-check` comes before it.  Decided on the
+generated lists themselves (not through the three theorems above), so that a write moved forward in the code is
+reported by this obligation on its own. -/
+theorem generated_handlers_write_last :
+    ∀ l ∈ [Ems.Gen.clipHandleCalls, Ems.Gen.extractPointsHandleCalls, Ems.Gen.exportGeometryHandleCalls],
+      WritesLast l := by
+  decide +kernel
+
+/-- What ties the kinds of the generated entries to the kinds of the model's steps: an entry is tagged `write`
+exactly when its step is a write step. -/
+theorem entry_kind (c : HandlerCall) : c.entry.1 = "write" ↔ c.toStep.kind = .write := by
+  cases c with
+  | mk step role call => cases role <;> simp [HandlerCall.entry, HandlerCall.toStep, CallRole.tag, CallRole.kind]
+
 end Ems.C20
